@@ -146,6 +146,33 @@ def r1r2(ctx, facts):
                 edges = x.bool_guard_edges(is_has_test)
                 if edges and bb not in x.reachable(0, removed={e["true_edge"] for e in edges}):
                     tied = True
+                if x.kind == "Closure" and not (inl and tied):
+                    # the loop written as an iterator pipeline: the destroying primitive sits in the closure handed to an exhaustive consumer
+                    # (for_each / fold ..) of an iterator over the slots, and the restriction to `has` in a `filter` closure of the same chain
+                    site = facts.closure_site(x)
+                    if site:
+                        pb, pbb, pi, _rv = site
+                        for cbb, ct in pb.calls():
+                            cc = ct["callee"]
+                            if cc.get("trait") == "std::iter::Iterator" and cc.get("name") in ("for_each", "fold", "try_for_each", "map", "count", "last") and \
+                                    any(pb.operand_origin(a) == ("agg", pbb, pi, ()) for a in ct["args"][1:]):
+                                inl = True
+                                for d in pb.deps(pb.arg_origin(cbb, 0)):
+                                    if d[0] == "call" and pb.term(d[1])["callee"].get("name") in ("filter", "take_while") and len(pb.term(d[1])["args"]) > 1:
+                                        fo = pb.arg_origin(d[1], 1)
+                                        if fo[0] != "agg":
+                                            continue
+                                        frv = pb.blocks[fo[1]]["stmts"][fo[2]]["rv"]
+                                        fb = facts.body(frv.get("closure", "")) if "closure" in frv else None
+                                        if fb is None:
+                                            continue
+                                        for fbb, ft in fb.calls():
+                                            if ft["callee"].get("name") == "contains" and ft["args"]:
+                                                rb, ro = facts.root_origin(fb, fb.arg_origin(fbb, 0))
+                                                rets = fb.ret_origins() if hasattr(fb, "ret_origins") else []
+                                                if rb is b and any(r[0] == "param" and r[1] == 2 for r in rb.roots(ro)) and \
+                                                        any(o == ("call", fbb, ()) for o in rets):
+                                                    tied = True
                 if not (inl and tied):
                     ok = False
                     why = "destroying primitive at %s is %s" % (x.loc(bb), "not inside a loop (only one slot destroyed)" if not inl else
